@@ -180,7 +180,28 @@ def B3_assign_pipeline(repo, clause):
             src = isinstance(a0e, ast.Attribute) and a0e.attr == attr
             ok = thr == ar and notnone and stores and src
             detail = "exclusion only when an exclusion set with >= %s atoms is given (arity %d), applied to atoms.%s" % (thr, ar, attr)
-        obs.append(Ob("B3", clause, fn, dels[0] if dels else fn.node, ok, detail, slot="%s:exclusion" % k))
+        obs.append(Ob("B3", clause, fn, dels[0] if dels else fn.node, ok, detail if dels else
+                      "the exclusion set is NEVER applied in %s (no call of delete_if_all_in_set): excluded %ss are typed and parameterised like all others" % (fn.qualname, k),
+                      construct=None if dels else "atoms.%s = delete_if_all_in_set(atoms.%s, exclude)" % (attr, attr), slot="%s:exclusion" % k, positive=not dels))
+        if len(dels) == 1:
+            # the guard is the CONJUNCTION `exclude is not None and len(exclude) >= arity`, taken positively
+            g_ = [(t, pol) for t, pol, kind in norm_guards(fn, dels[0]) if "exclude" in ast.unparse(t)]
+            bad_g = None
+            for t, pol in g_:
+                if not pol:
+                    bad_g = "the exclusion is applied when `%s` is FALSE" % ast.unparse(t)
+                elif isinstance(t, ast.BoolOp) and isinstance(t.op, ast.Or):
+                    bad_g = "`%s` is a DISJUNCTION: without an exclusion set len(None) raises, and a set smaller than a %s passes the test" % (ast.unparse(t), k)
+            flat = []
+            for t, pol in g_:
+                flat += (t.values if isinstance(t, ast.BoolOp) and isinstance(t.op, ast.And) else [t])
+            has_nn = any(is_none_test_any(x) == "isnot" for x in flat)
+            has_len = any(isinstance(x, ast.Compare) and isinstance(x.left, ast.Call) and call_name(x.left) == "len" for x in flat)
+            if bad_g is None and not (has_nn and has_len):
+                bad_g = "guard lacks %s" % ("the `is not None` test" if not has_nn else "the size test")
+            obs.append(Ob("B3", clause, fn, dels[0], bad_g is None,
+                          "exclusion guard of %s: %s" % (fn.qualname, "not None AND large enough, taken positively" if bad_g is None else bad_g),
+                          slot="%s:exclusion-guard" % k, positive=bad_g is not None and not bad_g.startswith("guard lacks"), undecided=bad_g is not None and bad_g.startswith("guard lacks")))
         # 2. per-term key list via typekey over per-atom UFF types
         keyl = None
         for n in fn.own_nodes():
@@ -225,7 +246,9 @@ def B3_assign_pipeline(repo, clause):
             ok = isinstance(l2.elt, ast.Call) and ast.unparse(l2.elt.func) == "%s.index" % uname and isinstance(l2.generators[0].iter, ast.Name) \
                 and l2.generators[0].iter.id == kname and isinstance(l2.elt.args[0], ast.Name) and l2.elt.args[0].id == l2.generators[0].target.id \
                 and not l2.generators[0].ifs
-        obs.append(Ob("B3", clause, fn, ty[0] if ty else fn.node, ok, "type id of a term = position of its key in the unique list", slot="%s:type-ids" % k))
+        obs.append(Ob("B3", clause, fn, ty[0] if ty else fn.node, ok, "type id of a term = position of its key in the unique list" if ty else
+                      "%s never stores atoms.%s_types: the terms keep whatever type ids they had, while the coefficient table is rebuilt" % (fn.qualname, k),
+                      construct=None if ty else "atoms.%s_types = [...]" % k, slot="%s:type-ids" % k, positive=not ty))
         # 5. parameters computed for the unique keys in order and formatted in the same order
         par = [n for n in fn.own_nodes() if isinstance(n, ast.Assign) and isinstance(n.value, ast.ListComp)
                and any(call_name(c) == "%s_params" % k for c in ast.walk(n.value) if isinstance(c, ast.Call))]
@@ -242,7 +265,9 @@ def B3_assign_pipeline(repo, clause):
             co = [n for n in fn.own_nodes() if isinstance(n, ast.Assign) and isinstance(n.targets[0], ast.Attribute) and n.targets[0].attr == k + "_type_coeffs"]
             ok = len(co) == 1 and isinstance(co[0].value, ast.ListComp) and isinstance(co[0].value.generators[0].iter, ast.Name) \
                 and co[0].value.generators[0].iter.id == pname and not co[0].value.generators[0].ifs
-            obs.append(Ob("B3", clause, fn, co[0] if co else fn.node, ok, "coefficient strings are formatted from the parameter list in the same order", slot="%s:coeffs" % k))
+            obs.append(Ob("B3", clause, fn, co[0] if co else fn.node, ok, "coefficient strings are formatted from the parameter list in the same order" if co else
+                          "%s never stores atoms.%s_type_coeffs: type ids are renumbered but the old coefficient table stays" % (fn.qualname, k),
+                          construct=None if co else "atoms.%s_type_coeffs = [...]" % k, slot="%s:coeffs" % k, positive=not co))
     # dihedral specifics: multiplicity and None removal
     fn = repo.fn("assign_dihedral_types")
     cnt = [n for n in fn.own_nodes() if isinstance(n, ast.Assign) and isinstance(n.value, ast.Call) and call_name(n.value) == "Counter"]
@@ -326,7 +351,18 @@ def B3_assign_pipeline(repo, clause):
             guarded = all(any(pol and any(x is tests[0] for x in ast.walk(t)) for t, pol, kk in norm_guards(fn, s2)) for s2 in (terms, keys, del_u, del_p))
             ok = order_ok and guarded
             detail += "; key is read before the unique entry is deleted and terms are filtered (by the old per-term keys) before the keys themselves=%s; all under the None test=%s" % (order_ok, guarded)
-    obs.append(Ob("B3", clause, fn, loops[0] if loops else fn.node, ok, detail, slot="dihedral:none-removal"))
+    removed_stage = False
+    if len(loops) == 1:
+        lp_ = loops[0]
+        st_d = [x for x in ast.walk(lp_) if isinstance(x, ast.Assign) and isinstance(x.targets[0], ast.Attribute) and x.targets[0].attr == "dihedrals"]
+        dl_ = [x for x in ast.walk(lp_) if isinstance(x, ast.Delete)]
+        if not st_d:
+            removed_stage = True
+            detail += " -- atoms.dihedrals is NOT filtered in the removal loop: undefined torsions stay in the structure while their types are removed (terms and types fall out of step)"
+        elif len(dl_) < 2 and not (del_u is not None and del_p is not None):
+            removed_stage = True
+            detail += " -- the unique key / parameter row of an undefined torsion is not deleted"
+    obs.append(Ob("B3", clause, fn, loops[0] if loops else fn.node, ok, detail, slot="dihedral:none-removal", positive=removed_stage))
     # delete_if_all_in_set: removed iff ALL atoms are in the set
     d = repo.fn("delete_if_all_in_set")
     tests = [n for n in d.own_nodes() if isinstance(n, ast.Compare)]
@@ -350,6 +386,30 @@ def B3_assign_pipeline(repo, clause):
         if not ok:
             ok = "issubset" in ast.unparse(tests[0])
     obs.append(Ob("B3", clause, d, tests[0] if tests else d.node, ok, "a term is excluded iff all of its atoms are in the exclusion set (set(term) - excluded is empty)", slot="exclusion-quantifier"))
+    # the rows that pass the test are recorded and removed along axis 0 of the term array
+    apps = [c for c in calls_in(d) if isinstance(c.func, ast.Attribute) and c.func.attr in ("append", "add")]
+    dl = [c for c in calls_in(d) if call_name(c) == "delete"]
+    comp = [x for x in d.own_nodes() if isinstance(x, (ast.ListComp,)) and x.generators and x.generators[0].ifs]
+    mask = any(isinstance(x, ast.Subscript) and isinstance(x.ctx, ast.Load) and isinstance(x.slice, (ast.UnaryOp, ast.Name, ast.Call)) for x in d.own_nodes())
+    if dl:
+        c = dl[0]
+        lst = c.args[1] if len(c.args) > 1 else kwarg(c, "obj")
+        recorded = bool(apps) or bool(comp) or (lst is not None and not isinstance(lst, ast.Name))
+        obs.append(Ob("B3", clause, d, c, recorded,
+                      "rows that pass the test are %s" % ("recorded for deletion" if recorded else
+                                                         "NEVER recorded (no append to `%s`): nothing is excluded" % (ast.unparse(lst) if lst is not None else "?")),
+                      slot="exclusion-recorded", positive=not recorded))
+        ax = kwarg(c, "axis") if kwarg(c, "axis") is not None else (c.args[2] if len(c.args) > 2 else None)
+        arr_first = bool(c.args) and isinstance(c.args[0], ast.Name) and c.args[0].id == d.params[0]
+        obs.append(Ob("B3", clause, d, c, ax is not None and const_value(ax) == 0 and arr_first,
+                      "np.delete removes whole rows of the term array: %s" % (
+                          "array first, axis=0" if (ax is not None and const_value(ax) == 0 and arr_first) else (
+                              "NO axis argument - np.delete then flattens the (n, k) term array and removes single atom indices" if ax is None else
+                              ("axis=%s" % ast.unparse(ax) if arr_first else "the first argument is `%s`, not the term array" % ast.unparse(c.args[0])))),
+                      slot="exclusion-delete-rows", positive=True))
+    elif not mask and not comp:
+        obs.append(Ob("B3", clause, d, d.node, False, "delete_if_all_in_set no longer removes rows (no np.delete, no mask, no filter)", construct="def delete_if_all_in_set",
+                      slot="exclusion-delete-rows", undecided=True))
     return obs
 
 
